@@ -63,6 +63,13 @@ at the top-level directory.
  * </pre>
  */
 
+#ifdef SLU_VERIF
+/* verification hook H2: reports the candidates seen and the decision taken for each pivot */
+extern void (*slu_verif_pivot_hook)(int phase, int dtype, int jcol, double u, int usepr,
+				    int pivrow, int diagind, int ncand, const int_t *rows,
+				    const void *vals, int info);
+#endif
+
 int
 dpivotL(
         const int  jcol,     /* in */
@@ -106,6 +113,12 @@ dpivotL(
     lu_col_ptr = &lusup[xlusup[jcol]];	/* start of jcol in the supernode */
     lsub_ptr   = &lsub[lptr];	/* start of row indices of the supernode */
 
+#ifdef SLU_VERIF
+    if ( slu_verif_pivot_hook )
+	slu_verif_pivot_hook(0, SLU_D, jcol, u, *usepr, *usepr ? iperm_r[jcol] : SLU_EMPTY,
+			     iperm_c[jcol], nsupr - nsupc, &lsub_ptr[nsupc], &lu_col_ptr[nsupc], 0);
+#endif
+
 #ifdef DEBUG
 if ( jcol == MIN_COL ) {
     printf("Before cdiv: col %d\n", jcol);
@@ -142,6 +155,11 @@ if ( jcol == MIN_COL ) {
 	perm_r[*pivrow] = jcol;
 #endif
 	*usepr = 0;
+#ifdef SLU_VERIF
+	if ( slu_verif_pivot_hook )
+	    slu_verif_pivot_hook(1, SLU_D, jcol, u, *usepr, SLU_EMPTY, iperm_c[jcol],
+				 nsupr - nsupc, &lsub_ptr[nsupc], &lu_col_ptr[nsupc], jcol+1);
+#endif
 	return (jcol+1);
     }
 
@@ -190,6 +208,12 @@ if ( jcol == MIN_COL ) {
     temp = 1.0 / lu_col_ptr[nsupc];
     for (k = nsupc+1; k < nsupr; k++) 
 	lu_col_ptr[k] *= temp;
+
+#ifdef SLU_VERIF
+    if ( slu_verif_pivot_hook )
+	slu_verif_pivot_hook(1, SLU_D, jcol, u, *usepr, *pivrow, iperm_c[jcol],
+			     nsupr - nsupc, &lsub_ptr[nsupc], &lu_col_ptr[nsupc], 0);
+#endif
 
     return 0;
 }
